@@ -13,6 +13,7 @@ def mk_cfg(r, **over):
         c["cltv_delta"] = 6
     c["mpp_ms"] = r.choice([60000, 60000, 5000, 120000])
     c["allow_self"] = r.chance(3, 4)
+    c["xpay"] = r.chance(1, 4)        # the flag changes the shape of the pay request (no label, no riskfactor), never its values
     c.update(over)
     return c
 
